@@ -5,3 +5,26 @@ pub use crate::filter::vh_filter as filter;
 pub use crate::link_noise::vh_link_noise as link_noise;
 pub use crate::matrix::vh_matrix as matrix;
 pub use crate::storage::vh_storage as storage;
+
+// ---- statime_h (C42/C43): controller internals (thin wrappers, no logic)
+pub mod controller {
+    use crate::filter::LinkFilter;
+    use crate::storage::{KalmanStorage, StateMutex};
+    use crate::{AlgoError, KalmanController};
+    use statime_base::Clock;
+
+    /// Calls the private `KalmanControllerState::steer_clocks`.
+    pub fn steer_clocks<S: KalmanStorage<C>, C: Clock>(ctl: &KalmanController<S, C>) -> Result<(), AlgoError> {
+        ctl.state.with_mut(|s| s.steer_clocks())
+    }
+    /// Runs `f` on the controller's filter (read/write access to the state the queries read).
+    pub fn with_filter<S: KalmanStorage<C>, C: Clock, R>(
+        ctl: &KalmanController<S, C>,
+        f: impl FnOnce(&mut LinkFilter<S>) -> R,
+    ) -> R {
+        ctl.state.with_mut(|s| f(&mut s.filter))
+    }
+    pub fn steered_clock_count<S: KalmanStorage<C>, C: Clock>(ctl: &KalmanController<S, C>) -> usize {
+        ctl.state.with_ref(|s| s.clocks.len())
+    }
+}
